@@ -1,6 +1,6 @@
 #!/usr/bin/env python3
-"""Writes seeded/<name>/meta.json for the round-3 seeds from a trial log (tools/try_seed.sh verdict lines).
-usage: r3meta.py <trial log>"""
+"""Writes seeded/<name>/meta.json for the round-3 and round-4 seeds from trial logs (tools/try_seed.sh verdict lines).
+usage: r3meta.py <trial log>..."""
 import json, re, sys, os
 
 SEEDS = {
@@ -50,8 +50,53 @@ SEEDS = {
    "a bookmark with annotations (k8s.io/initial-events-end)", ""),
 }
 
+SEEDS4 = {
+ "C01-r4-unmarshal-error-ignored": ("C01", "GetDeleteSlots ignores the error of json.Unmarshal and inserts whatever was decoded",
+   "a well-formed JSON list with an element that is not an int32 ([2, 2147483648], [0, \"1\"]): the decoder keeps the other elements and a zero", ""),
+ "C02-r4-slots-iterated-unsorted": ("C02", "GetMaxReplicaCountAndDeleteSlots iterates the slot set with UnsortedList instead of List",
+   "a slot at or above replicas that is valid only because a lower slot widens the range, and an unlucky map iteration order", "the C01 kernel catches it (insertion order already differs from sorted order); map-order exploration was added for the helpers it names; C02 itself (controller level, Go map order) does not"),
+ "C03-r4-ondelete-with-leftover-partition-rolls": ("C03", "the OnDelete early return folded into the updateMin computation as an else-if behind the partition branch",
+   "strategy OnDelete with a left-over rollingUpdate.partition block and an edited template", ""),
+ "C04-r4-slots-parsed-as-unsigned": ("C04", "GetDeleteSlots unmarshals into []uint32",
+   "a negative entry next to valid ones: the whole annotation is dropped and the listed slots are re-populated", "the engine's JSON intercept for the symbolic slot list was generalised to other integer element types; before that the run ended in an engine trap (inconclusive)"),
+ "C05-r4-claim-skips-terminating-owned-pods": ("C05", "ClaimObject ignores every object that is being deleted, owned ones too (vendored controller_ref_manager)",
+   "a sync while an owned pod is terminating and more work is waiting behind it", "the change alters the snapshot sync hands to UpdateStatefulSet, not UpdateStatefulSet"),
+ "C06-r4-hostname-kept-from-template": ("C06", "initIdentity sets hostname and subdomain only when they are empty",
+   "a pod template that carries spec.hostname / spec.subdomain", "needed the new run C06/identity-with-template-fields"),
+ "C07-r4-ondelete-return-behind-partition-branch": ("C07", "the OnDelete early return is only reached when there is no rollingUpdate.partition",
+   "strategy OnDelete with a left-over partition block", ""),
+ "C08-r4-newest-by-number-not-data": ("C08", "getStatefulSetRevisions decides 'the template's revision is the newest' by comparing revision numbers",
+   "two stored revisions of different data sharing the highest number", "needed the new run C08/revisions-tied-numbers"),
+ "C09-r4-claim-errors-overwritten": ("C09", "createPersistentVolumeClaims keeps one err variable that every iteration overwrites",
+   "two claim templates and a failure on a claim that is not visited last", "caught by C06 (two templates, all map orders); the C09 harness has one claim template"),
+ "C10-r4-selector-fast-path-drops-expressions": ("C10", "sync builds the pod selector from matchLabels alone when matchLabels is non-empty",
+   "a selector with matchLabels and matchExpressions and a pod that satisfies only the labels", "needed the new run C10/pods-selector-with-expression"),
+ "C11-r4-deleting-set-releases-unmatched-pod": ("C11", "ClaimObject releases a non-matching owned object unless BOTH the controller and the object are being deleted",
+   "a set being deleted with an owned, non-terminating pod that no longer matches", ""),
+ "C12-r4-current-replicas-always-decremented": ("C12", "the update delete decrements status.currentReplicas whatever the pod's revision",
+   "a pod at a third revision deleted for update", ""),
+ "C13-r4-dedupe-per-query-only": ("C13", "ListRevisions de-duplicates within each of its two queries only",
+   "an adopted revision carrying both the selector labels and the upgrade marker", ""),
+ "C14-r4-no-scale-down-when-count-fits": ("C14", "condemned = nil when len(pods) <= spec.replicas",
+   "as many vacancies as pods outside the desired set", ""),
+ "C15-r4-equal-revision-nil-hash-deref": ("C15", "EqualRevision dereferences both parsed hash labels when either is non-nil",
+   "a revision whose hash label is all digits next to one whose label is not", "needed the all-digit hash label dimension in C15/sync-selector-shapes"),
+ "C16-r4-owner-ref-full-gvk": ("C16", "resolveControllerRef compares the full GroupVersionKind of the owner reference",
+   "an owner reference written through the other served version (apps.pingcap.com/v1alpha1)", "needed the owner variant 'same set, other served API version'"),
+ "C17-r4-marked-revisions-skipped": ("C17", "Upgrade skips revisions that already carry the marker",
+   "a set that went to the Advanced API and back: revisions match the selector and carry the marker", "needed the 'revision already marked' dimension"),
+ "C18-r4-upgrade-defaults-template": ("C18", "Upgrade runs SetObjectDefaults_StatefulSet on the converted object",
+   "a stored template lacking a field the vendored defaults fill in", "caught by C17 after 'same spec' became a field-by-field comparison of the whole spec; the C18 check starts after the upgrade"),
+ "C19-r4-grace-period-zero-treated-as-unset": ("C19", "SetDefaults_PodSpec treats terminationGracePeriodSeconds 0 like nil",
+   "an explicit grace period of 0", "needed the oracle 'explicit pod-template values survive defaulting'"),
+ "C20-r4-relay-ends-after-error-event": ("C20", "the relay goroutine returns after relaying an Error event",
+   "an Error event that is not the last event", ""),
+}
+
 def main():
-    log = open(sys.argv[1]).read().splitlines()
+    log = []
+    for f in sys.argv[1:]:
+        log += open(f).read().splitlines()
     res = {}
     for l in log:
         m = re.match(r'(\S+) \[(C\d\d)\] demo_fails=(\d+) existing_ok=(\d+) :: (\w+) property=(C\d\d) tier=(\w+) (.*)', l)
@@ -59,14 +104,17 @@ def main():
             continue
         name, ck, dm, ex, verdict, _, tier, rest = m.groups()
         res.setdefault(name, {})[f"{ck} {tier}"] = (verdict, int(dm), int(ex), rest.split(' validated')[0])
-    for name, (prop, change, needs, note) in SEEDS.items():
+    both = [(k, v, 3) for k, v in SEEDS.items()] + [(k, v, 4) for k, v in SEEDS4.items()]
+    for name, (prop, change, needs, note), rnd in both:
         d = os.path.join('/verif/seeded', name)
+        if name not in res:
+            continue
         r = res.get(name, {})
         caught = {k: f"VIOLATION property={k.split()[0]} tier={k.split()[1]} {v[3]}" for k, v in r.items() if v[0] == 'VIOLATION'}
         missed = {k: f"{v[0]} {v[3]}" for k, v in r.items() if v[0] != 'VIOLATION'}
         ok = all(v[1] > 0 and v[2] == 2 for v in r.values()) if r else False
         meta = {
-            "property": prop, "round": 3,
+            "property": prop, "round": rnd,
             "source": "independent sub-agent given only the property text, a scratch worktree and the one-line descriptions of the earlier changes for the same property",
             "change": change, "needs": needs,
             "confirmed": ("tools/try_seed.sh seeded/%s quick <check>: compiles, the 109 existing tests pass with it, the demonstration test fails with it and passes without" % name) if ok else "NOT CONFIRMED",
